@@ -134,7 +134,7 @@ def taint_from(body, seeds):
     return tainted
 
 
-def ref_source(body, local, depth=0, types=None):
+def ref_source(body, local, depth=0, types=None, callres=None):
     """follow `_x = &mut (*_1).f` / `_x = &mut (*_y)` / `_x = move _y` chains backwards:
     returns the projection path (list of field names) from an argument local, or None.
     With `types` given, `_x = copy/move <place>` is followed only when `_x` is itself a reference
@@ -146,6 +146,27 @@ def ref_source(body, local, depth=0, types=None):
         for st in bb["stmts"]:
             if st["k"] == "assign" and st["place"]["local"] == local and not st["place"]["proj"]:
                 defs.append(st["rv"])
+    if not defs and callres is not None:
+        # `_x = accessor(move _y)`: a reference handed out by a workspace accessor function
+        # (`fn chain_mut(&mut self) -> &mut Block { &mut self.iv }`), as far as `callres` can tell
+        cdefs = [bb["term"] for bb in body["blocks"] if bb["term"]["k"] == "call" and bb["term"].get("dest") is not None
+                 and bb["term"]["dest"]["local"] == local and not bb["term"]["dest"]["proj"]]
+        if len(cdefs) != 1 or cdefs[0]["func"]["k"] != "const" or "fn" not in cdefs[0]["func"]:
+            return None
+        t = cdefs[0]
+        inner = callres(body, t, t["func"]["fn"])
+        if inner is None or inner[0] - 1 >= len(t["args"]):
+            return None
+        a = t["args"][inner[0] - 1]
+        if a["k"] not in ("copy", "move") or a["place"]["proj"]:
+            return None
+        al = a["place"]["local"]
+        if 1 <= al <= body["arg_count"]:
+            return (al, list(inner[1]))
+        r = ref_source(body, al, depth + 1, types, callres)
+        if r is None:
+            return None
+        return (r[0], r[1] + list(inner[1]))
     if len(defs) != 1:
         return None
     rv = defs[0]
@@ -160,7 +181,7 @@ def ref_source(body, local, depth=0, types=None):
     fields = [e.get("name", e.get("i")) for e in p["proj"] if e["k"] == "field"]
     if p["local"] <= body["arg_count"] and p["local"] >= 1:
         return (p["local"], fields)
-    r = ref_source(body, p["local"], depth + 1, types)
+    r = ref_source(body, p["local"], depth + 1, types, callres)
     if r is None:
         return None
     return (r[0], r[1] + fields)
